@@ -205,6 +205,20 @@ abbrev Data := List (Bytes × DV)
 def dataSet (d : Option Data) (k : Bytes) (v : DV) : Option Data :=
   some ((k, v) :: ((d.getD []).filter (fun x => x.1 != k)))
 
+/-- `m[k] = v` on the data map (a store into a nil map panics in Go; the translated code makes the map first, and `none`
+    stays `none` so that nothing can be concluded from such a use) -/
+def dataPut (d : Option Data) (k : Bytes) (v : DV) : Option Data :=
+  d.map fun l => (k, v) :: l.filter (fun x => x.1 != k)
+
+instance : Inhabited DV := ⟨DV.str []⟩
+
+/-- `v, ok := m[k]` on the data map (reading a nil map is fine in Go: nothing is found); the zero value of `any` is
+    represented by the default `DV` together with `ok = false` -/
+def dataGet (d : Option Data) (k : Bytes) : DV × Bool :=
+  match (d.getD []).find? (fun x => x.1 == k) with
+  | some x => (x.2, true)
+  | none => (default, false)
+
 /-- what a gate middleware does to the context (pkg/handlers) -/
 inductive GEv
   | header (k v : Bytes)
@@ -402,6 +416,12 @@ def HW.set (w : HW) (k v : Bytes) : HW := { w with header := (k, v) :: w.header.
 
 /-- `w.Write(data)` -/
 def HW.write (w : HW) (b : Bytes) : HW := { w with log := w.log ++ [.write b] }
+
+/-- which field of the context an adapter hands to the wrapped std handler -/
+inductive CArg
+  | resp   -- c.Resp
+  | req    -- c.Req
+  deriving DecidableEq, Repr, Inhabited
 
 /-- `copy(dst, src)`: the first `min (len dst) (len src)` elements of `dst` are overwritten by those of `src` -/
 def copyInto {α : Type} (dst src : List α) : List α := src.take dst.length ++ dst.drop src.length
